@@ -2,7 +2,7 @@
     unit, list, prod, sumbool and sumor map to the OCaml types; N, positive, Z and nat stay the
     extracted inductive types. No [Extract Constant], no further [Extract Inductive]. *)
 From Coq Require Import Extraction ExtrOcamlBasic.
-From AnemoVerif Require Import Base Utf8 Bincode Status Wire SizeLimit Timeout AuthLayer Inflight Gcra Router Codegen ActivePeers MutualDial Dialer NetModel Tls Shutdown ShutdownTrace Rpc RpcTrace.
+From AnemoVerif Require Import Base Utf8 Bincode Status Wire SizeLimit Timeout AuthLayer Inflight Gcra Router Codegen ActivePeers MutualDial MutualDialLimit Dialer NetModel Tls Shutdown ShutdownTrace Rpc RpcTrace.
 
 Extraction Language OCaml.
 
@@ -28,6 +28,7 @@ Separate Extraction
   ActivePeers.step ActivePeers.run ActivePeers.peers ActivePeers.tie_break ActivePeers.empty ActivePeers.find
   MutualDial.reach MutualDial.do_step MutualDial.enabled MutualDial.terminal MutualDial.init
   MutualDial.all_labels MutualDial.survivor MutualDial.converged
+  MutualDialLimit.possible_survivors MutualDialLimit.no_limit MutualDialLimit.limit_at
   Dialer.check Dialer.b_update Dialer.backoff_duration Dialer.first_tick_after
   NetModel.step NetModel.run NetModel.lists NetModel.admission NetModel.adversarial_hello_accepted NetModel.dial_outcome
   Tls.accept_remote Tls.accept_client Tls.honest_cert Tls.honest_proof Tls.verify_cert Tls.verify_cert_pinned Tls.verify_hs Tls.peer_id Tls.accept_chain
